@@ -15,6 +15,7 @@ Case lines
                                      kind 1 mark_push_update_pending() / 2 request_stop(); its notify_all is held back
                                      until the nocc-th event ncode (ncode=0: not held back).  code 13 = inside the wait.
   5 delay kind                       (free) arrival `delay` real us after the graph started
+  7 1                                request_stop() is called before run() is entered
 Observation lines (first line 90 mode)
   hook mode (1): 10 started | 11 loop body entered | 12 w clock reading in advance_realtime | 13 about to wait_for
      14 wait_for returned | 15 t advance_realtime returned t | 16 t graph.evaluate(t) entered | 17 push source evaluated
@@ -242,6 +243,13 @@ def _gen_free(rng, tier):
 
 
 def gen(rng, tier, prop):
+    c = _gen(rng, tier, prop)
+    if rng.random() < 0.03:
+        c = c + [[7, 1]]
+    return c
+
+
+def _gen(rng, tier, prop):
     r = rng.random()
     if r < 0.56:
         return _gen_virt(rng, tier)
@@ -277,7 +285,7 @@ def enumerate_cases(prop):
 
 # ---------------------------------------------------------------- helpers
 def parse_case(case):
-    d = dict(start=1000, end=2000, slice=1000, virt=1, v0=900, dflt=1, nnodes=1, ops=[], acts=[], facts=[], deltas=[])
+    d = dict(start=1000, end=2000, slice=1000, virt=1, v0=900, dflt=1, nnodes=1, ops=[], acts=[], facts=[], deltas=[], prestop=0)
     for l in case:
         if l[0] == 1 and len(l) >= 7:
             d.update(start=l[1], end=l[2], slice=l[3], virt=l[4], v0=l[5], dflt=l[6])
@@ -291,6 +299,8 @@ def parse_case(case):
             d["facts"].append(l[1:])
         elif l[0] == 6:
             d["nnodes"] = l[1]
+        elif l[0] == 7:
+            d["prestop"] = l[1]
     return d
 
 
@@ -502,6 +512,13 @@ def _oracle_hook(d, out):
                 fails.append(("not_increasing", "first cycle at %d before start %d" % (t, start)))
             if any(p < t for p in pend):
                 fails.append(("skipped_pending", "cycle at %d although %d is pending" % (t, min(pend))))
+            if t in pend and last_read is not None and last_read < t:
+                # the literal statement of C17: "a node scheduled for T is ... never [evaluated] before the wall clock
+                # has reached T".  The rule min(target, max(wall, prev+MIN_TD)) allows it when T is the smallest step
+                # after the previous cycle (or start_time itself) and a push wakes the loop early.
+                fails.append(("scheduled_cycle_before_wall",
+                              "the wake-up scheduled for %d is evaluated at wall clock %d (%d us early; previous cycle %d, start %d)"
+                              % (t, last_read, t - last_read, prev, start)))
             consec = consec + 1 if t == prev + 1 else 0
             cur = t
             ncyc += 1
@@ -539,6 +556,8 @@ def _oracle_hook(d, out):
                 owed = 0
     if not exited:
         fails.append(("no_exit", "run did not return"))
+    if d["prestop"] and any(l[0] == 11 for l in out):
+        fails.append(("stop_before_run_lost", "request_stop() made before run() was entered was discarded: the loop body ran"))
     return fails
 
 
@@ -583,6 +602,9 @@ def _oracle_free(d, out):
                 fails.append(("cycle_at_or_after_end", "a cycle at %d with end_time %d" % (t, end)))
             if t > max(w, prev + 1):
                 fails.append(("ran_early", "cycle at %d but the wall clock read afterwards is only %d (previous cycle %d)" % (t, w, prev)))
+            elif t in pend and w < t:
+                fails.append(("scheduled_cycle_before_wall",
+                              "the wake-up scheduled for %d is evaluated with the wall clock (read afterwards) at %d" % (t, w)))
             need_push = t < tgt
             if need_push and wlast is not None and t < wlast:
                 fails.append(("eval_time_formula", "wake-up cycle stamped %d, before an earlier clock reading %d" % (t, wlast)))
@@ -618,6 +640,8 @@ def _oracle_free(d, out):
                     fails.append(("dropped_wakeup", "run ended with wake-ups %s (< end %d) never evaluated" % (left[:5], end)))
     if not exited:
         fails.append(("no_exit", "run did not return"))
+    if d["prestop"] and not stopinit and any(l[0] == 16 for l in out):
+        fails.append(("stop_before_run_lost", "request_stop() made before run() was entered was discarded: cycles were evaluated"))
     return fails
 
 
@@ -637,7 +661,9 @@ PROP_KINDS = {"C17": {
     "not_increasing", "skipped_pending", "ran_early", "eval_time_formula", "wake_without_cause", "wait_past_target",
     "wait_with_flag", "stop_ignored", "cycle_after_stop", "cycle_at_or_after_end", "push_missed", "push_eval_without_push",
     "early_exit", "dropped_wakeup", "drain_cut_early", "alarm_dropped", "alarm_not_future", "alarm_time", "alarm_due_time",
-    "sched_rule", "notify_before_flag", "late_wakeup", "no_exit", "harness_abort", "trace_shape"}}
+    "sched_rule", "notify_before_flag", "late_wakeup", "no_exit", "harness_abort", "trace_shape",
+    # candidate findings (see docs/notes-rtloop.md); listed in known_findings.json
+    "scheduled_cycle_before_wall", "stop_before_run_lost"}}
 
 
 def shrink(case):
